@@ -29,10 +29,11 @@ for reg in (1, 4):
     for sing in (3, 4):
         api.GLOBAL_PARAMETERS.quadrature.regular = reg
         api.GLOBAL_PARAMETERS.quadrature.singular = sing
-        for kind in ("slp", "hyp", "idt"):
+        for kind in ("slp", "hyp", "idt", "mhyp"):
             g, s = fresh()
             if kind == "slp": op = api.operators.boundary.laplace.single_layer(s, s, s)
             elif kind == "hyp": op = api.operators.boundary.laplace.hypersingular(s, s, s)
+            elif kind == "mhyp": op = api.operators.boundary.helmholtz.hypersingular(s, s, s, 0.9j)
             else: op = api.operators.boundary.sparse.identity(s, s, s)
             out["weak_%s_%d_%d" % (kind, reg, sing if kind != "idt" else 0)] = op.weak_form().to_dense()
     g, s = fresh()
@@ -103,6 +104,7 @@ def record(api, hist, ref):
                 pp = None if pref == "G" else P
                 fac = {"slp": lambda: api.operators.boundary.laplace.single_layer(s, s, s, parameters=pp),
                        "hyp": lambda: api.operators.boundary.laplace.hypersingular(s, s, s, parameters=pp),
+                       "mhyp": lambda: api.operators.boundary.helmholtz.hypersingular(s, s, s, 0.9j, parameters=pp),   # routed to modified Helmholtz
                        "idt": lambda: api.operators.boundary.sparse.identity(s, s, s, parameters=pp),
                        "fmm": lambda: api.operators.boundary.laplace.single_layer(s, s, s, assembler="fmm", parameters=pp),
                        "pot": lambda: api.operators.potential.laplace.single_layer(s, PTS, parameters=pp)}[kind]
@@ -189,6 +191,8 @@ def replay(api, hist, ref, fail):
                     ops[slot] = (kind, api.operators.boundary.laplace.hypersingular(s, s, s, parameters=pp))
                 elif kind == "idt":
                     ops[slot] = (kind, api.operators.boundary.sparse.identity(s, s, s, parameters=pp))
+                elif kind == "mhyp":
+                    ops[slot] = (kind, api.operators.boundary.helmholtz.hypersingular(s, s, s, 0.9j, parameters=pp))
                 else:
                     ops[slot] = (kind, api.operators.potential.laplace.single_layer(s, PTS, parameters=pp))
             elif call == "weak_form":
